@@ -312,7 +312,7 @@ Definition process_received (w : world) : world * outcome (option rpacket) :=
   | Some (r', _, None) => (w_hd (upd_sess w (set_reader s r')), OFail EInvalidPacket)
   | Some (r', _, Some p) =>
       let '(s2, hr) := handle_packet (set_reader s r') p in
-      let w2 := upd_sess w s2 in
+      let w2 := upd_envok (upd_sess w s2) (w_envok w && ack_type_ok (set_reader s r') p) in
       match hr with
       | HOk true => (w2, ODone (Some p))
       | HOk false => (w2, ODone None)
